@@ -97,8 +97,8 @@ Theorem compile_T :
   (forall ms fs, T fs (cmethods ms) (fun _ => fs)).
 Proof.
   apply lsyntax_mutind; intros; simpl.
-  all: try solve [ timeout 20 go ].
-  all: try solve [ destruct kind; timeout 20 go ].
+  all: try solve [ timeout 600 go ].
+  all: try solve [ destruct kind; timeout 600 go ].
 Qed.
 Print Assumptions compile_T.
 
